@@ -1,6 +1,7 @@
 import YaqsModel.Basic.Parse
 import YaqsModel.Model.Index
 import YaqsModel.Model.MasterEq
+import YaqsModel.Model.MasterEqExec
 /-! line protocol for the index maps and Kronecker embeddings (C06)
 
     kron      d… | b…            → kronIdx            (`err` if the digits are not valid for the dimensions)
@@ -278,4 +279,56 @@ def handleAll (line : String) : String :=
     else handle line
   | [] => handle line
 
-def main : IO Unit := do lineLoop (← IO.getStdin) handleAll
+/-! ## extension 2: everything that can be observed of one pass of the MCWF loop (`Model.MasterEqExec`)
+
+    mcwfstep2 L sample r k | ψ | ψnext | obs… proc…
+         → `p_jump  nojump|nojumpeps|jump k pv…  calls i…  rho ρ…  cols v…`
+           `calls` = indices of `ctx.jump_ops` multiplied onto the start-of-step state, in program order (`opCalls`);
+           `rho`   = density matrix of the state after the pass (`postRho`; the real `ctx.output_state`, as `|ψ⟩⟨ψ|`);
+           `cols`  = the returned array, column by column (`oneStepCols`)
+    purerho L c | v                   → entries of `|v⟩⟨v|/c` (`np.outer(psi, psi.conj())` handed to `solve_ivp`, `c = 1`)
+-/
+
+def showNatsSp (xs : List Nat) : String := joinWith " " (xs.map toString)
+
+def handleME2 (line : String) : String :=
+  match splitBar (words line) with
+  | ["mcwfstep2", l, smp, r, k] :: p0 :: p1 :: segs =>
+    match l.toNat?, smp.toNat?, parseRat? r, k.toNat? with
+    | some L, some smp, some r, some k =>
+      let n := 2 ^ L
+      let osegs := segs.filter isObsSeg
+      let psegs := segs.filter (fun s => !isObsSeg s)
+      match cvec? n p0, cvec? n p1, allObs? L osegs, allProcs? L psegs with
+      | some ψ, some ψnext, some (some obs), some (some procs) =>
+        if smp > 1 then "bad-op" else
+        let Ls := jumpOps procs
+        match mcwfTaken n Ls ψ ψnext r k, oneStepCols n Ls obs (smp == 1) ψ ψnext r k with
+        | some t, some cols =>
+          let br := match t with
+            | .noJump => "nojump"
+            | .noJumpEps => "nojumpeps"
+            | .jump k pv => joinWith " " (["jump", toString k, "pv"] ++ pv.map showRat)
+          joinWith " " ([showRat (pJump ψnext), br, "calls"] ++ (opCalls Ls.length t).map toString
+            ++ ["rho", showCMat (postRho n Ls ψ ψnext t), "cols"] ++ (cols.flatMap id).map showRat)
+        | _, _ => "bad-op"
+      | some _, some _, some none, some _ => "err"
+      | some _, some _, some _, some none => "err"
+      | _, _, _, _ => "bad-op"
+    | _, _, _, _ => "bad-op"
+  | [["purerho", l, c], v] =>
+    match l.toNat?, parseRat? c with
+    | some L, some c =>
+      let n := 2 ^ L
+      match cvec? n v with
+      | some v => if c = 0 then "err" else showCMat (pureRho n v c)
+      | none => "bad-op"
+    | _, _ => "bad-op"
+  | _ => "bad-op"
+
+def handleAll2 (line : String) : String :=
+  match words line with
+  | op :: _ => if ["mcwfstep2", "purerho"].contains op then handleME2 line else handleAll line
+  | [] => handleAll line
+
+def main : IO Unit := do lineLoop (← IO.getStdin) handleAll2
